@@ -243,12 +243,42 @@ pub fn run_batch<P: Property>(p: &P, env: &Env, known: &KnownFile, threads: usiz
         .unwrap_or(wall_cap);
     let next = AtomicUsize::new(0);
     let stop = AtomicBool::new(false);
+    // watchdog: a single run that does not finish (a blocking primitive inside a simulated-pool
+    // task, an endless loop) must not hang the check: exit 2 and name the run
+    let run_limit_s: u64 = std::env::var("QSIM_RUN_LIMIT_S").ok().and_then(|s| s.parse().ok()).unwrap_or(120);
+    let started: Vec<std::sync::atomic::AtomicU64> = (0..threads).map(|_| std::sync::atomic::AtomicU64::new(0)).collect();
+    let current: Vec<std::sync::Mutex<String>> = (0..threads).map(|_| std::sync::Mutex::new(String::new())).collect();
+    let all_done = AtomicBool::new(false);
     let harness_err: std::sync::Mutex<Option<String>> = std::sync::Mutex::new(None);
     let mut recs: Vec<RunRec> = vec![];
     std::thread::scope(|s| {
         let mut handles = vec![];
-        for _ in 0..threads {
-            handles.push(s.spawn(|| {
+        // the watchdog thread
+        s.spawn(|| {
+            while !all_done.load(Ordering::Relaxed) {
+                std::thread::sleep(std::time::Duration::from_millis(500));
+                let now = t0.elapsed().as_secs();
+                for (ti, st) in started.iter().enumerate() {
+                    let b = st.load(Ordering::Relaxed);
+                    if b != 0 && now > b + run_limit_s {
+                        let what = current[ti].lock().map(|g| g.clone()).unwrap_or_default();
+                        eprintln!(
+                            "qsim: run {what} has not finished after {run_limit_s}s of wall clock (the code under test blocks or loops; under the simulated worker pool a real lock held across a scheduling point does this). The check cannot decide. (exit 2)"
+                        );
+                        std::process::exit(2);
+                    }
+                }
+            }
+        });
+        for ti in 0..threads {
+            let started = &started;
+            let current = &current;
+            let next = &next;
+            let stop = &stop;
+            let plan = &plan;
+            let subs = &subs;
+            let harness_err = &harness_err;
+            handles.push(s.spawn(move || {
                 let mut local: Vec<RunRec> = vec![];
                 loop {
                     if stop.load(Ordering::Relaxed) {
@@ -263,9 +293,14 @@ pub fn run_batch<P: Property>(p: &P, env: &Env, known: &KnownFile, threads: usiz
                         break;
                     }
                     let (si, idx) = plan[k];
+                    if let Ok(mut g) = current[ti].lock() {
+                        *g = format!("sub={} idx={}", subs[si].name, idx);
+                    }
+                    started[ti].store(t0.elapsed().as_secs().max(1), Ordering::Relaxed);
                     let r = std::panic::catch_unwind(std::panic::AssertUnwindSafe(|| {
                         one_run(p, env, subs[si].name, idx)
                     }));
+                    started[ti].store(0, Ordering::Relaxed);
                     match r {
                         Ok((_sc, mut out)) => {
                             if out.violations.is_empty() {
@@ -295,6 +330,7 @@ pub fn run_batch<P: Property>(p: &P, env: &Env, known: &KnownFile, threads: usiz
                 recs.append(&mut l);
             }
         }
+        all_done.store(true, Ordering::Relaxed);
     });
     if let Some(e) = harness_err.lock().unwrap().take() {
         eprintln!("qsim: {e}");
